@@ -1183,7 +1183,6 @@ def tier_plan(tier, seed):
         # MemoryFS.scandir holds the filesystem lock across its yields, so filterdir / walk
         # serialise their cache look-ups there; OSFS has no such lock
         plan.append((cache_cases("MemoryFS", True), CACHE_PARAMS))
-        plan.append((cache_cases("MemoryFS", False), CACHE_PARAMS))
         plan.append((cache_cases("OSFS", True), CACHE_PARAMS))
     return plan
 
@@ -1274,14 +1273,15 @@ def explore(tier, seed, procs=None, budget_s=None, plan=None):
     if procs is None:
         procs = min(16, os.cpu_count() or 1)
     if budget_s is None:
-        budget_s = 840 if tier == "thorough" else 62
+        budget_s = 840 if tier == "thorough" else 55
     units = []
     for cases, params in plan:
         size = params.get("unit") or (6 if tier == "thorough" else 12)
         for i in range(0, len(cases), size):
             units.append((cases[i:i + size], params, seed))
     # spread the kinds / phases so that a time cut never removes a whole class
-    order = sorted(range(len(units)), key=lambda i: (i % 17, i))
+    # (the small pattern cache cases go first: their exhaustive part must never be cut)
+    order = sorted(range(len(units)), key=lambda i: (0 if units[i][1].get("cache2") else 1, i % 17, i))
     units = [units[i] for i in order]
     st = Stats()
     t0 = time.time()
